@@ -302,18 +302,90 @@ func runC15(c *Ctx, pr *PropertyRun) {
 		})
 	}
 	fresh.RequireRole("children-store")
+
+	// reading a raw value does not write it: TokenReader, the reader's Token,
+	// MarshalXML, Decode and XMLName store nothing into a RawXMLValue (a
+	// reader cached in the value and rewound carries the state of an
+	// abandoned read into the next one)
+	ro := NewRule("C15", "C15.read-only", "the read side of RawXMLValue (TokenReader, the reader's Token, MarshalXML, Decode, XMLName) and everything it calls in the module stores nothing into a RawXMLValue (E5)")
+	pr.Rules = append(pr.Rules, ro)
+	{
+		var roots []*ssa.Function
+		for _, n := range []string{"(*RawXMLValue).TokenReader", "(*RawXMLValue).MarshalXML", "(*RawXMLValue).Decode", "(*RawXMLValue).XMLName"} {
+			if fn := p.MustFunc(ro, pkgInternal, n); fn != nil {
+				roots = append(roots, fn)
+			}
+		}
+		if tokFn != nil {
+			roots = append(roots, tokFn)
+		}
+		seen := c.CG().Reach(roots, moduleOnly(p))
+		// Decode hands the token stream to encoding/xml, which may capture
+		// parts of it into OTHER raw values: the capture side is not the
+		// read side
+		captureSide := map[*ssa.Function]*CGEdge{}
+		if um != nil {
+			captureSide = c.CG().Reach([]*ssa.Function{um}, moduleOnly(p))
+		}
+		for fn := range seen {
+			if !p.InModule(fn) || len(fn.Blocks) == 0 {
+				continue
+			}
+			if _, isCapture := captureSide[fn]; isCapture {
+				continue
+			}
+			ro.Role("read-side-function")
+			eachInstr(fn, func(_ *ssa.BasicBlock, in ssa.Instruction) {
+				st, ok := in.(*ssa.Store)
+				if !ok {
+					return
+				}
+				// a store into a field of a RawXMLValue that is not a local
+				addr := st.Addr
+				hits := false
+				for i := 0; i < 8; i++ {
+					switch x := addr.(type) {
+					case *ssa.FieldAddr:
+						if pt, ok := x.X.Type().Underlying().(*types.Pointer); ok && namedOf(pt.Elem()) == raw && raw != nil {
+							hits = true
+						}
+						addr = x.X
+						continue
+					case *ssa.IndexAddr:
+						addr = x.X
+						continue
+					}
+					break
+				}
+				if !hits {
+					return
+				}
+				if al, isLocal := addr.(*ssa.Alloc); isLocal && !al.Heap {
+					return
+				}
+				if al, isLocal := addr.(*ssa.Alloc); isLocal {
+					// a fresh value built here (composite literal)
+					_ = al
+					return
+				}
+				ro.Ob(false)
+				ro.Violation("read-writes|"+fnKey(fn), p.instrPos(st), fnKey(fn)+" is on the read side of RawXMLValue and stores into a raw value: reading a captured element changes it (state kept in the value — a cached reader, a cursor — survives an abandoned read and corrupts the next one)", nil)
+			})
+		}
+		ro.RequireRole("read-side-function")
+	}
 }
 
 // tokenStream models (*xml.Decoder).Token as a sequence chosen token by token.
 type tokenStream struct {
-	n    int
-	max  int
-	seq  []string
+	n   int
+	max int
+	seq []string
 }
 
 func (ts *tokenStream) model(in *Interp, site ssa.CallInstruction, name string, args []Val) (Val, bool) {
 	switch name {
-	case "(*encoding/xml.Decoder).Token":
+	case "(*encoding/xml.Decoder).Token", "(encoding/xml.TokenReader).Token":
 		i := ts.n
 		ts.n++
 		labels := append(append([]string{}, xmlKinds...), "error")
